@@ -268,6 +268,11 @@ func c24Scanner(s *shiftdfa.Scanner) string {
 // It returns the canonical answer and, for well-formed byte-mode tables, the first input on which the two scanners differ.
 func c24Answer(t *lex.Tables, wf bool, inputs []string) (answer, packKind, diff string) {
 	s, kind := c24Pack(t)
+	return c24AnswerWith(t, wf, inputs, s, kind)
+}
+
+// c24AnswerWith is c24Answer for a scanner obtained elsewhere (shiftdfa.Compile).
+func c24AnswerWith(t *lex.Tables, wf bool, inputs []string, s *shiftdfa.Scanner, kind string) (answer, packKind, diff string) {
 	var sb strings.Builder
 	fmt.Fprintf(&sb, "wf=%s pack=%s", b2s(wf), kind)
 	var ps []string
@@ -577,6 +582,170 @@ func c24(c *Ctx) {
 		emitted++
 		if diff != "" {
 			c.Violate("packed scanner disagrees with the lexer tables it packs: "+diff+"; rules "+c24RulesText(rules)+" ("+kindTag+")", line)
+		}
+	}
+	c24Sequences(c, c.N(400, 8000))
+}
+
+// ---- sequences of shiftdfa.Compile calls with named patterns (Options.Patterns) ----
+
+type c24MapResolver map[string]*lex.Pattern
+
+func (m c24MapResolver) Resolve(name string) *lex.Pattern { return m[name] }
+
+// c24CompileNamed builds the lexer tables of rules+named patterns the way shiftdfa.Compile does.
+func c24CompileNamed(rules []shiftdfa.Rule, defs map[string]string) (t *lex.Tables, err error) {
+	defer func() {
+		if r := recover(); r != nil {
+			t, err = nil, fmt.Errorf("panic: %v", r)
+		}
+	}()
+	res := c24MapResolver{}
+	for name, pattern := range defs {
+		re, err := lex.ParseRegexp(pattern, lex.CharsetOptions{ScanBytes: true})
+		if err != nil {
+			return nil, err
+		}
+		res[name] = &lex.Pattern{Name: name, RE: re, Text: pattern, Origin: c24Node{name, 0}}
+	}
+	var in []*lex.Rule
+	for i, r := range rules {
+		re, err := lex.ParseRegexp(r.Pattern, lex.CharsetOptions{ScanBytes: true})
+		if err != nil {
+			return nil, err
+		}
+		in = append(in, &lex.Rule{
+			Pattern:         &lex.Pattern{Name: fmt.Sprintf("rule%v", i), RE: re, Text: r.Pattern, Origin: c24Node{"rules", i}},
+			Resolver:        res,
+			Precedence:      r.Precedence,
+			Action:          r.Token,
+			StartConditions: []int{0},
+			Origin:          c24Node{"rules", i},
+		})
+	}
+	return lex.Compile(in, true, false)
+}
+
+func c24DefsText(defs map[string]string) string {
+	var parts []string
+	for _, k := range []string{"p0", "p1", "p2"} {
+		if v, ok := defs[k]; ok {
+			parts = append(parts, k+"=/"+v+"/")
+		}
+	}
+	return strings.Join(parts, " ")
+}
+
+type c24NamedSet struct {
+	rules []shiftdfa.Rule
+	defs  []map[string]string // definitions this rule list was already compiled with
+}
+
+// c24Sequences compiles, in this one process, many rule lists that refer to named patterns; the same
+// rule texts recur with different and with identical pattern definitions. After every call of the
+// real shiftdfa.Compile the returned scanner is compared with the lexer tables compiled for the
+// definitions of THAT call (state kept between calls of Compile would show here).
+func c24Sequences(c *Ctx, n int) {
+	r := c.Rng
+	c.Rule += " Plus sequences of shiftdfa.Compile(rules, Options{Patterns}) calls in one process: rule lists over named patterns {p0},{p1},{p2}" +
+		" recur (2/3 of the calls reuse an earlier rule list) with fresh or repeated pattern definitions; each returned scanner is compared" +
+		" (table and Scan on 7 inputs) with lex.Compile of the same rules and the same definitions."
+	shapes := []string{`{p0}`, `{p1}`, `{p2}`, `{p0}+`, `{p1}+`, `{p0}{p1}*`, `{p1}{p2}`, `({p0}|{p1})+`, `x{p2}`, `{p2}*y`, `{p0}{p0}`, `\-{p1}`}
+	var pool []*c24NamedSet
+	newDefs := func() map[string]string {
+		g := &c24Gen{rng: r, nonASCII: []int{0, 0, 0, 1}[r.Intn(4)]}
+		defs := map[string]string{}
+		for _, name := range []string{"p0", "p1", "p2"} {
+			switch r.Intn(5) {
+			case 0:
+				defs[name] = c24Alpha[r.Intn(len(c24Alpha))]
+			case 1, 2:
+				defs[name] = g.class()
+			case 3:
+				defs[name] = g.class() + "+"
+			default:
+				defs[name] = g.seq(0)
+			}
+		}
+		return defs
+	}
+	emitted := 0
+	for attempt := 0; emitted < n && attempt < 30*n; attempt++ {
+		var set *c24NamedSet
+		var defs map[string]string
+		reuse := "new rule list"
+		if len(pool) > 0 && r.Intn(3) > 0 {
+			set = pool[r.Intn(len(pool))]
+			if r.Intn(3) == 0 {
+				defs = set.defs[r.Intn(len(set.defs))]
+				reuse = "same rule list, same definitions"
+			} else {
+				defs = newDefs()
+				reuse = "same rule list, other definitions"
+			}
+		} else {
+			set = &c24NamedSet{}
+			nr := 1 + r.Intn(3)
+			for i := 0; i < nr; i++ {
+				pat := shapes[r.Intn(len(shapes))]
+				if i > 0 && r.Intn(4) == 0 {
+					pat = c24Alpha[r.Intn(len(c24Alpha))] + c24Alpha[r.Intn(len(c24Alpha))]
+				}
+				set.rules = append(set.rules, shiftdfa.Rule{Pattern: pat, Token: 1 + r.Intn(5), Precedence: -i})
+			}
+			defs = newDefs()
+		}
+		t, lerr := c24CompileNamed(set.rules, defs)
+		var s *shiftdfa.Scanner
+		var cerr error
+		func() {
+			defer func() {
+				if p := recover(); p != nil {
+					s, cerr = nil, fmt.Errorf("panic: %v", p)
+				}
+			}()
+			// a fresh slice and a fresh map for every call, as a client would pass them
+			s, cerr = shiftdfa.Compile(append([]shiftdfa.Rule(nil), set.rules...), shiftdfa.Options{Patterns: defs})
+		}()
+		if len(set.defs) == 0 {
+			if len(pool) < 40 {
+				pool = append(pool, set)
+			} else {
+				pool[r.Intn(len(pool))] = set
+			}
+		}
+		set.defs = append(set.defs, defs)
+		desc := fmt.Sprintf("rules %v patterns %s (%s, call #%d for this rule list)", set.rules, c24DefsText(defs), reuse, len(set.defs))
+		wantOK := false
+		if lerr == nil && t != nil {
+			_, k := c24Pack(t)
+			wantOK = k == "ok"
+		}
+		if (cerr == nil) != wantOK {
+			c.Count("sequence: acceptance differs")
+			c.Violate(fmt.Sprintf("shiftdfa.Compile acceptance differs from Pack(lex.Compile) of the same rules and definitions: Compile error %v, tables accepted %v; %s", cerr, wantOK, desc), desc)
+			continue
+		}
+		if cerr != nil {
+			c.Count("sequence: rejected (" + reuse + ")")
+			continue
+		}
+		inputs := c24Inputs(r, t, 7, false)
+		answer, _, diff := c24AnswerWith(t, true, inputs, s, "ok")
+		var hx []string
+		for _, in := range inputs {
+			hx = append(hx, hexs([]byte(in)))
+		}
+		line := c24TablesLine(t) + " " + strings.Join(hx, " ")
+		key := ""
+		if len(t.Dfa)/t.NumSymbols >= 2 {
+			key = line
+		}
+		c.Count("sequence: accepted (" + reuse + ")")
+		c.Case(line, answer, key)
+		emitted++
+		if diff != "" {
+			c.Violate("scanner returned by shiftdfa.Compile disagrees with the lexer tables of the same rules and named patterns: "+diff+"; "+desc, line)
 		}
 	}
 }
